@@ -648,16 +648,31 @@ fn run_threaded(c: &ClientCase) -> RunResult {
         let _ = t.join();
     }
     let (gone, _) = wait_progress(&shared, Duration::from_secs(5), Duration::from_secs(20), || client.start(None).is_err());
-    // at this instant every receiver must hold a value
+    // The loop has dropped its receiver (start() fails).  std's channel reports the disconnection to senders *before*
+    // it destroys the messages that were still queued, so the results of discarded operations may arrive a few
+    // microseconds later: the receivers get a bounded chance (no transport activity is needed for it, exactly like
+    // the polling tasks of the tokio variant); a result that is still missing after that never comes
     let hs = handles.lock().unwrap();
+    let mut outs: Vec<Option<Outcome>> = hs.iter().map(|_| None).collect();
+    let grace = Instant::now();
+    loop {
+        for (k, (_, h, _)) in hs.iter().enumerate() {
+            if outs[k].is_none() {
+                outs[k] = match h {
+                    Handle::P(r) => r.try_recv().map(conv_pub),
+                    Handle::S(r) => r.try_recv().map(conv_sub),
+                    Handle::U(r) => r.try_recv().map(conv_unsub),
+                };
+            }
+        }
+        if outs.iter().all(|o| o.is_some()) || grace.elapsed() > Duration::from_secs(10) {
+            break;
+        }
+        std::thread::sleep(Duration::from_millis(1));
+    }
     let mut recs: Vec<OpRec> = Vec::new();
-    for (ix, h, after) in hs.iter() {
-        let outcome = match h {
-            Handle::P(r) => r.try_recv().map(conv_pub),
-            Handle::S(r) => r.try_recv().map(conv_sub),
-            Handle::U(r) => r.try_recv().map(conv_unsub),
-        };
-        recs.push(OpRec { tag: *ix as u32 + 1, op: c.ops[*ix].clone(), submitter: ix % nsub, outcome, submitted_after_close_call: *after });
+    for (k, (ix, _, after)) in hs.iter().enumerate() {
+        recs.push(OpRec { tag: *ix as u32 + 1, op: c.ops[*ix].clone(), submitter: ix % nsub, outcome: outs[k].clone(), submitted_after_close_call: *after });
     }
     recs.sort_by_key(|r| r.tag);
     let received = obs.received.lock().unwrap().clone();
@@ -1287,6 +1302,121 @@ fn check_faulty(c: &FaultCase) -> CaseReport {
 }
 
 // ------------------------------------------------------------------------------------------------
+// real reconnect waits (second witness for C19: the wait the DRIVER really makes, not the one the client computes)
+// ------------------------------------------------------------------------------------------------
+
+/// A real client whose connection factory refuses every connection and records the instant of every attempt, while
+/// the application keeps submitting operations every `op_interval_ms` (the drivers must not let user traffic stretch
+/// or restart the back-off wait).  Without jitter the k-th wait is min(base*2^k, max) exactly, so the gap between
+/// attempts k and k+1 must not be shorter than 0.8x and not longer than 3x + 250 ms of it.  The run is judged only
+/// if the harness itself was scheduled promptly (a 1 ms ticker never overslept by more than 120 ms); otherwise, or if
+/// the observation window runs out on an unresponsive machine, the case is inconclusive.
+pub fn reconnect_gap_witness(tokio_driver: bool, base_ms: u64, op_interval_ms: u64) -> CaseReport {
+    let driver = if tokio_driver { "tokio" } else { "threaded" };
+    let attempts: Arc<Mutex<Vec<Instant>>> = Arc::new(Mutex::new(Vec::new()));
+    let mut cb = MqttClientOptions::builder();
+    cb.with_offline_queue_policy(OfflineQueuePolicy::PreserveAll);
+    cb.with_connect_timeout(Duration::from_secs(600));
+    cb.with_base_reconnect_period(Duration::from_millis(base_ms));
+    cb.with_max_reconnect_period(Duration::from_secs(1));
+    cb.with_reconnect_period_jitter(ExponentialBackoffJitterType::None);
+    let mut conn = ConnectOptions::builder();
+    conn.with_keep_alive_interval_seconds(None);
+    conn.with_client_id("gaps");
+    let waits: Vec<u64> = (0..4u32).map(|k| (base_ms << k).min(1000)).collect();
+    let window = Duration::from_millis(waits.iter().sum::<u64>() * 3 + 1500);
+    let stop = Arc::new(AtomicBool::new(false));
+    // responsiveness monitor
+    let worst_oversleep = Arc::new(AtomicU64::new(0));
+    let mon = {
+        let stop = stop.clone();
+        let worst = worst_oversleep.clone();
+        std::thread::spawn(move || {
+            while !stop.load(Ordering::SeqCst) {
+                let t = Instant::now();
+                std::thread::sleep(Duration::from_millis(1));
+                let over = t.elapsed().as_millis() as u64;
+                worst.fetch_max(over, Ordering::SeqCst);
+            }
+        })
+    };
+    let refuse = || GneissError::new_std_io_error(std::io::Error::new(std::io::ErrorKind::ConnectionRefused, "scripted refusal"));
+    let mut submitted = 0u64;
+    let started = Instant::now();
+    let enough = |a: &Arc<Mutex<Vec<Instant>>>| a.lock().unwrap().len() >= 5;
+    if tokio_driver {
+        let rt = runtime();
+        let a2 = attempts.clone();
+        type Fut = Pin<Box<dyn std::future::Future<Output = GneissResult<Transport>> + Send>>;
+        let factory: Box<dyn Fn() -> Fut + Send + Sync> = Box::new(move || {
+            a2.lock().unwrap().push(Instant::now());
+            Box::pin(async move { Err(GneissError::new_std_io_error(std::io::Error::new(std::io::ErrorKind::ConnectionRefused, "scripted refusal"))) })
+        });
+        let client = {
+            let _g = rt.enter();
+            new_tokio_client(cb.build(), conn.build(), TokioOptions::builder(rt.handle().clone()).build(), factory)
+        };
+        let _ = client.start(None);
+        while started.elapsed() < window && !enough(&attempts) {
+            let f = client.publish(pub_packet(1, 0, 4), None);
+            drop(f);
+            submitted += 1;
+            std::thread::sleep(Duration::from_millis(op_interval_ms));
+        }
+        let _ = client.close();
+    } else {
+        let a2 = attempts.clone();
+        let factory: Arc<dyn Fn() -> GneissResult<Transport> + Send + Sync> = Arc::new(move || {
+            a2.lock().unwrap().push(Instant::now());
+            Err(GneissError::new_std_io_error(std::io::Error::new(std::io::ErrorKind::ConnectionRefused, "scripted refusal")))
+        });
+        let client = new_threaded_client(cb.build(), conn.build(), ThreadedOptions::builder().build(), factory);
+        let _ = client.start(None);
+        while started.elapsed() < window && !enough(&attempts) {
+            let _ = client.publish(pub_packet(1, 0, 4), None);
+            submitted += 1;
+            std::thread::sleep(Duration::from_millis(op_interval_ms));
+        }
+        let _ = client.close();
+    }
+    let _ = refuse;
+    stop.store(true, Ordering::SeqCst);
+    let _ = mon.join();
+    let at = attempts.lock().unwrap().clone();
+    let worst = worst_oversleep.load(Ordering::SeqCst);
+    let responsive = worst <= 120;
+    let gaps: Vec<u64> = at.windows(2).map(|w| (w[1] - w[0]).as_millis() as u64).collect();
+    let mut violations = Vec::new();
+    if responsive {
+        for (k, w) in waits.iter().enumerate() {
+            match gaps.get(k) {
+                Some(g) => {
+                    if *g > w * 3 + 250 {
+                        violations.push(Violation::new("C19.real_wait_exceeds_bound", format!("{}: the driver waits far longer before a reconnect attempt than min(base*2^k, max) while the application keeps submitting operations", driver), format!("attempt {} -> {}: waited {} ms, expected {} ms (base {} ms, an operation every {} ms); gaps {:?}", k, k + 1, g, w, base_ms, op_interval_ms, gaps)));
+                        break;
+                    }
+                    if (*g as f64) < (*w as f64) * 0.8 {
+                        violations.push(Violation::new("C19.real_wait_too_short", format!("{}: the driver makes a reconnect attempt before the back-off wait has elapsed", driver), format!("attempt {} -> {}: waited {} ms, expected {} ms; gaps {:?}", k, k + 1, g, w, gaps)));
+                        break;
+                    }
+                }
+                None => {
+                    // the attempt did not come within the whole observation window (3x the sum of the waits + 1.5 s)
+                    violations.push(Violation::new("C19.real_wait_exceeds_bound", format!("{}: the driver waits far longer before a reconnect attempt than min(base*2^k, max) while the application keeps submitting operations", driver), format!("attempt {} never came within {:?}: expected wait {} ms (base {} ms, an operation every {} ms); gaps {:?}", k + 1, window, w, base_ms, op_interval_ms, gaps)));
+                    break;
+                }
+            }
+        }
+    }
+    let labels = vec![format!("real_reconnect_waits:{}", driver), if responsive { "harness_responsive".to_string() } else { "harness_thread_descheduled".to_string() }];
+    let sample = json!({"kind": "real reconnect waits", "driver": driver, "base_ms": base_ms, "operation_every_ms": op_interval_ms, "operations_submitted": submitted, "expected_waits_ms": waits, "observed_gaps_ms": gaps, "worst_ticker_oversleep_ms": worst});
+    if std::env::var("VERIF_DEBUG_WITNESS").is_ok() {
+        eprintln!("witness: {}", sample);
+    }
+    CaseReport { violations, labels, nontrivial: responsive && gaps.len() >= 3, digest: hash_str(&format!("gaps-{}-{}-{}", driver, base_ms, op_interval_ms)), sample: Some(sample), inconclusive: !responsive, ..Default::default() }
+}
+
+// ------------------------------------------------------------------------------------------------
 // websocket adapter
 // ------------------------------------------------------------------------------------------------
 
@@ -1654,7 +1784,7 @@ impl Property for C13 {
     fn assumptions(&self) -> Vec<String> {
         vec![
             "thread / task interleavings are sampled (spin delays, several submitter threads), not enumerated".into(),
-            "no wall-clock timeout is a verdict: 'no result' counts only after the event loop has provably exited (a further start() fails) or after the transport has been idle for 10 s with nothing left to answer".into(),
+            "no wall-clock timeout is a verdict about progress: 'no result' counts only once the event loop has provably exited (a further start() fails) and the receivers have had 10 s to be filled by the destruction of the queued operations, or after the transport has been idle for 10 s with nothing left to answer".into(),
             "the tokio WebSocket path (third-party stream-ws adapter) is not covered; only the repository's own threaded adapter is".into(),
         ]
     }
